@@ -32,6 +32,24 @@ def _own_family(F, f):
     return out
 
 
+_BASE_FNS = None
+
+
+def _is_new(h):
+    """h did not exist on the reviewed tree (tables/items.json): a helper a refactoring has extracted. Only such
+    functions lend their effects to their callers - a reviewed function is never 'part of' another one."""
+    global _BASE_FNS
+    if _BASE_FNS is None:
+        import json, os
+        p = os.path.join(os.path.dirname(os.path.dirname(os.path.abspath(__file__))), "tables", "items.json")
+        try:
+            with open(p) as fh:
+                _BASE_FNS = set(json.load(fh).get("fns", {}))
+        except OSError:
+            _BASE_FNS = set()
+    return bool(_BASE_FNS) and h.path not in _BASE_FNS
+
+
 def _private_callees(F, g):
     """non-exported workspace functions of the same crate called (resolved statically) by body g"""
     out = []
@@ -41,7 +59,7 @@ def _private_callees(F, g):
             d, r, rk = g.callee(t)
             if r is not None and rk == "item":
                 h = F.by_path.get(r.path)
-                if h is not None and h.crate == g.crate and h.kind in ("fn", "method") and h.vis != "pub" and not h.reach and not h.in_testonly():
+                if h is not None and h.crate == g.crate and h.kind in ("fn", "method") and h.vis != "pub" and not h.reach and not h.in_testonly() and _is_new(h):
                     out.append(h)
     return out
 
